@@ -1,10 +1,16 @@
 #!/bin/sh
 # re-confirm every filed seed against the current /repo HEAD and committed /verif
+# (the checks run for a seed are the ones recorded in its meta.json: some seeds are reported by a neighbouring property's check)
 cd /verif
 for d in seeded/*; do
   id=$(basename $d)
+  checks=$(/venv/bin/python -c "
+import json,sys
+m=json.load(open('/verif/seeded/$id/meta.json'))
+c=list((m.get('confirmation') or {}).get('checks',{}).keys())
+print(','.join(c))" 2>/dev/null)
   extra=""
-  [ "$id" = "C11-2" ] && extra="--checks=C11,C15"
+  [ -n "$checks" ] && extra="--checks=$checks"
   ./tools_seed.py /verif/seeded/$id $id $extra 2>&1 | grep -v "conda\|DLASCL" | cut -c1-200
 done
 ./tools_mutants.py
